@@ -20,6 +20,7 @@ RULE = (
     "+-1/0 table for shift_xx and the 0/-1 pattern for expect_flat_log2. Non-trivial (a) = >= 2 autosomes with different levels "
     "and a sex-chromosome or null bin; (b) every case; distinct = distinct case JSON."
 )
+CLI_SHARE = 4  # one case in CLI_SHARE also goes through the command line (vk/cli.py)
 QUICK = {"examples": 3200, "shards": 16, "budget_s": 300}
 THOROUGH = {"examples": 40000, "shards": 16, "budget_s": 2400}
 ASSUMPTIONS = [
